@@ -41,3 +41,14 @@ Print Assumptions C05_terminated_thread_is_silent.
 Theorem C05_timeout_handler_restores : forall o, timeout_handler_ok (exec eff o None gen_execute_with_timeout) = true.
 Proof. exact timeout_handler_restores. Qed.
 Print Assumptions C05_timeout_handler_restores.
+
+(* restoration does not rest on the contract "the recording code does not raise": with _capture_exception allowed to raise any
+   Exception (skeletons gen_*_rec) everything is restored all the same, for an ordinary failure and for a time-out *)
+Theorem C05_execute_restores_even_if_recording_fails : forall o, balanced (snd (exec eff o None gen_execute_rec)) = true.
+Proof. exact execute_restores_even_if_recording_fails. Qed.
+Print Assumptions C05_execute_restores_even_if_recording_fails.
+
+Theorem C05_timeout_handler_restores_even_if_recording_fails :
+  forall o, timeout_restored_ok (exec eff o None gen_execute_with_timeout_rec) = true.
+Proof. exact timeout_handler_restores_even_if_recording_fails. Qed.
+Print Assumptions C05_timeout_handler_restores_even_if_recording_fails.
